@@ -948,11 +948,13 @@ def rule_annotation_check_semantics(ctx: Ctx, out: Collector) -> None:
         raise AnalysisError('no function raising UndefinedParamAnnotation found (VL-7 anchor vanished)')
     EMPTY = AClass(('ext', 'inspect._empty'))
 
+    from ..absint import AExt
+    KINDS = {k: AExt(f'inspect.Parameter.{k}') for k in ('POSITIONAL_OR_KEYWORD', 'VAR_POSITIONAL', 'VAR_KEYWORD', 'KEYWORD_ONLY',
+                                                         'POSITIONAL_ONLY')}
+
     def param(name, default=EMPTY, kind='POSITIONAL_OR_KEYWORD'):
         return AObj(('ext', 'inspect.Parameter'), {'name': name, 'default': default, 'empty': EMPTY, 'annotation': TOP,
-                                                   'kind': kind, 'POSITIONAL_OR_KEYWORD': 'POSITIONAL_OR_KEYWORD',
-                                                   'VAR_POSITIONAL': 'VAR_POSITIONAL', 'VAR_KEYWORD': 'VAR_KEYWORD',
-                                                   'KEYWORD_ONLY': 'KEYWORD_ONLY', 'POSITIONAL_ONLY': 'POSITIONAL_ONLY'})
+                                                   'kind': KINDS[kind], **KINDS})
     MARK = AObj(('ext', 'Mark'), {}, tag='mark')
     worlds = {
         'all parameters annotated': ({'x': param('x')}, {'x': MARK, 'return': TOP}, None),
@@ -961,6 +963,16 @@ def rule_annotation_check_semantics(ctx: Ctx, out: Collector) -> None:
         'un-annotated keyword-only parameter': ({'y': param('y'), 'x': param('x', kind='KEYWORD_ONLY')}, {'y': MARK}, 'UndefinedParamAnnotation'),
         'no annotations at all': ({'x': param('x')}, {}, 'UndefinedAnnotation'),
         'no parameters, no annotations': ({}, {}, None),
+        # parameters are exempted by kind, not by what they are called
+        'un-annotated ordinary parameter called kwargs': ({'kwargs': param('kwargs'), 'y': param('y')}, {'y': MARK}, 'UndefinedParamAnnotation'),
+        'un-annotated keyword-only parameter called args': ({'y': param('y'), 'args': param('args', kind='KEYWORD_ONLY')}, {'y': MARK},
+                                                            'UndefinedParamAnnotation'),
+        'un-annotated ordinary parameter called self (static run method)': ({'self': param('self'), 'y': param('y')}, {'y': MARK},
+                                                                            'UndefinedParamAnnotation'),
+        'un-annotated *args / **kwargs': ({'y': param('y'), 'args': param('args', kind='VAR_POSITIONAL'),
+                                           'kwargs': param('kwargs', kind='VAR_KEYWORD')}, {'y': MARK}, None),
+        'only *args / **kwargs (generated wrapper)': ({'args': param('args', kind='VAR_POSITIONAL'),
+                                                       'kwargs': param('kwargs', kind='VAR_KEYWORD')}, {'y': MARK}, None),
     }
     problems = []
     table = {}
